@@ -33,7 +33,8 @@ def damaged_texts(rng, n):
     """valid corpus texts damaged by insertion / deletion / truncation / token swap, plus random printable text"""
     base = [t for _, t in corpus.corpus()]
     out = []
-    kinds = ['valid', 'insert', 'delete', 'truncate', 'dup_word', 'random', 'insert_end', 'locked_name', 'blank_lines']
+    kinds = ['valid', 'insert', 'delete', 'truncate', 'dup_word', 'random', 'insert_end', 'locked_name', 'blank_lines',
+             'undeclared', 'long_line']
     for i in range(n):
         kind = kinds[i % len(kinds)]
         t = rng.choice(base)
@@ -64,6 +65,18 @@ def damaged_texts(rng, n):
             t = '\n'.join(lines)
         elif kind == 'locked_name':
             t = t.replace(' id', ' ' + rng.choice(['and', 'is', 'to', 'with', 'where']), 1)
+        elif kind == 'undeclared':
+            # a concept that nothing declares, in a position that cannot define it -> compilation error
+            t = t.rstrip() + '\nIt is prohibited that there is a ' + rng.choice(['zorg', 'blip', 'quux']) + ' with id 1.\n'
+        elif kind == 'long_line':
+            # lexical error far to the right on a long sentence (beyond the 40-character context window)
+            sents = [x for x in corpus.split_sentences(t) if len(x) > 90 and '\n' not in x]
+            if sents:
+                x = rng.choice(sents)
+                k = rng.randrange(82, len(x))
+                t = t.replace(x, x[:k] + rng.choice('%$#') + x[k:], 1)
+            else:
+                t = t + ' %'
         elif kind == 'blank_lines':
             t = '\n' * rng.randrange(1, 4) + t.replace('. ', '.\n\n', 1) + rng.choice(['%', ' $', '\n@'])
         out.append((kind, t))
@@ -101,7 +114,7 @@ def api_outcome(text, flags):
             return {'outcome': 'ok', 'nonempty': bool(str(out)), 'out': out}
     except UnexpectedCharacters as e:
         return {'outcome': 'UnexpectedCharacters', 'line': e.line, 'col': e.column, 'char': e.char,
-                'allowed': sorted(e.allowed) if e.allowed else []}
+                'allowed': sorted(e.allowed) if e.allowed else [], 'context': e.get_context(text)}
     except VisitError as e:
         return {'outcome': 'VisitError', 'msg': str(e.args[0])}
     except Exception as e:  # noqa
@@ -179,6 +192,11 @@ def _job(args):
     return (kind, text, flags, out, obs)
 
 
+def _classify_job(text):
+    rt.enable_lark_cache()
+    return api_outcome(text, {})['outcome']
+
+
 def unit_cases(rng, n):
     cases = []
     alphabet = 'ab%. '
@@ -214,11 +232,16 @@ def main(tier):
     # ---- e2e ------------------------------------------------------------------
     n_texts = 130 if tier == 'quick' else 1500
     texts = damaged_texts(rng, n_texts)
+    # phase 1: outcome class of plain compilation, so that flag sets can be spread evenly over the classes
+    pre = rt.pmap(_classify_job, [t for _, t in texts], chunksize=4)
+    counters = {}
     jobs = []
-    for idx, (kind, t) in enumerate(texts):
-        jobs.append((kind, t, rng.choice(FLAGSETS)))
-        if idx % 3 == 0:
-            jobs.append((kind, t, rng.choice(FLAGSETS)))
+    for (kind, t), cls in zip(texts, pre):
+        k = counters.get(cls, 0)
+        counters[cls] = k + 1
+        jobs.append((kind, t, FLAGSETS[k % len(FLAGSETS)]))
+        if k % 2 == 0:
+            jobs.append((kind, t, FLAGSETS[(k // 2 + 1) % len(FLAGSETS)]))
     results = rt.pmap(_job, jobs, chunksize=2)
     # model requests for the e2e cases
     for (kind, text, flags, out, obs) in results:
@@ -281,6 +304,23 @@ def main(tier):
             run.violation('e2e/position', f'diagnostic cites {m.group(1)}:{m.group(2)} but the parser stopped at '
                                           f'{out["line"]}:{out["col"]}', {'text': text, 'stdout': so[:300]})
         mreqs.append(('linecol', {'s': text, 'k': 0}))
+    # main()'s whole parser diagnostic vs the model's message assembled from the exception's own fields
+    def canon(msg):
+        head, sep, rest = msg.partition('Expected one of:\n')
+        bullets, sep2, tail = rest.partition('\n\n')
+        return head + sep + '\n'.join(sorted(bullets.split('\n'))) + sep2 + tail
+    full = []
+    for text, out, obs in msg_cases:
+        ctx = out['context']
+        full.append((obs['stdout'], ('c18.msg', {'line': out['line'], 'col': out['col'], 'ch': out['char'], 'context': ctx,
+                                                 'linetext': text.splitlines()[out['line'] - 1], 'allowed': out['allowed']})))
+    if full:
+        ans3 = common.run_model([r for _, r in full])
+        for (so, req), a in zip(full, ans3):
+            run.count(('stdout', req[1]['linetext'], req[1]['col']))
+            if canon(so) != canon(a.get('ok', '') + '\n'):
+                run.broke('corr', "main()'s parser diagnostic vs parserMessage", {'req': req[1], 'stdout': so[:400], 'model': str(a)[:400]})
+                break
     run.coverage['e2e_distribution'] = dict(sorted(dist.items(), key=lambda kv: -kv[1])[:40])
     run.coverage['e2e_runs'] = len(results)
     # full message correspondence through the real ParserError constructor
